@@ -706,6 +706,8 @@ class SymReal(Sym):
             se = z3.simplify(oz._e)
             if z3.is_rational_value(se) and se.as_fraction().denominator == 1:
                 k = int(se.as_fraction())
+        if self.lf is not None and k is None and isinstance(oz, SymInt) and Ctx.cur is not None:
+            k = Ctx.cur.concretize_int(oz.e)  # log-value times a symbolic integer count: fork over its values
         if self.lf is not None and k is not None:
             return SymReal(lf=self.lf.pow(k), nan=_or(self.nan, getattr(oz, "nan", None)))
         o = _toreal(oz)
@@ -1055,6 +1057,12 @@ def _wrap_store(v, rng, ldtype):
             return x._asint()
         if isinstance(x, SymInt):
             ctx = Ctx.cur
+            if z3.is_int_value(x.e):
+                return one(x.e.as_long())
+            if x.e.num_args() == 0 and x.e.decl().name() in INT_BOUNDS:
+                blo, bhi = INT_BOUNDS[x.e.decl().name()]
+                if lo <= blo and bhi <= hi:
+                    return x
             if ctx is not None and ctx.feasible(z3.Or(x.e < lo, x.e > hi)):
                 ctx.event("int-store-overflow", value=str(x.e), dtype=str(ldtype))
                 return SymInt((x.e - lo) % span + lo)
@@ -2208,9 +2216,13 @@ def fresh_real(ctx, name, lo=None, hi=None, lo_strict=True, hi_strict=True):
     return v
 
 
+INT_BOUNDS = {}
+
+
 def fresh_int(ctx, name, lo, hi):
     """lo <= v <= hi"""
     v = z3.Int(name)
+    INT_BOUNDS[name] = (lo, hi)
     ctx.assume(z3.And(v >= lo, v <= hi))
     return v
 
